@@ -9,7 +9,7 @@ sys.path.insert(0, os.path.join(os.path.dirname(os.path.abspath(__file__)), '..'
 import gen_runtime
 from extract import LostAnchor
 
-G_SCHEMAS = ['closure_plus', 'g_lookahead', 'char_rule', 'optional_multi', 'closure_star', 'nest_opt_closure_opt', 'seq_rebind', 'nest_closure_in_closure', 'include_chain', 'include_chain__inl', 'term_range_char_eoi', 'nest_lookahead_closure', 'lookahead_nested', 'boxed', 'box_merge', 'seq3', 'include_diamond', 'include_diamond__inl', 'include_boxed', 'include_boxed__inl', 'char_rule_single', 'optional_field_reused', 'closure_field_named_result', 'extern_noskip_blanks', 'optional_nested', 'lookahead', 'check_position', 'position_string', 'check2_plain', 'position_skip']
+G_SCHEMAS = ['closure_plus', 'g_lookahead', 'char_rule', 'optional_multi', 'closure_star', 'nest_opt_closure_opt', 'seq_rebind', 'nest_closure_in_closure', 'include_chain', 'include_chain__inl', 'term_range_char_eoi', 'nest_lookahead_closure', 'lookahead_nested', 'boxed', 'box_merge', 'seq3', 'include_diamond', 'include_diamond__inl', 'include_boxed', 'include_boxed__inl', 'char_rule_single', 'optional_field_reused', 'closure_field_named_result', 'extern_noskip_blanks', 'optional_nested', 'lookahead', 'check_position', 'position_string', 'check2_plain', 'position_skip', 'ws_lookahead_tail']
 
 def schemas_for(ctx, prop):
     """the units that carry an obligation of the property (read from the contract files)"""
